@@ -40,6 +40,7 @@ type FPAQEncoder struct {
 	high      uint64
 	bitstream kanzi.OutputBitStream
 	disposed  bool
+	hasData   bool // true once at least one byte has been encoded
 	buffer    []byte
 	index     int
 	probs     [4][]int // probability of bit=1
@@ -129,6 +130,7 @@ func (this *FPAQEncoder) Write(block []byte) (int, error) {
 
 	startChunk := 0
 	end := count
+	this.hasData = this.hasData || count > 0
 
 	// Split block into chunks, read bit array from bitstream and decode chunk
 	for startChunk < end {
@@ -192,6 +194,13 @@ func (this *FPAQEncoder) Dispose() {
 	}
 
 	this.disposed = true
+
+	if this.hasData == false {
+		// Nothing was encoded: the decoder does not read anything for an
+		// empty block, so do not emit the final bits
+		return
+	}
+
 	this.bitstream.WriteBits(this.low|_FPAQ_MASK_0_24, 56)
 }
 
